@@ -29,7 +29,7 @@ func genC19(g *Gen) {
 		sizes = append(sizes, 60, 200)
 	}
 	colsets := []string{"ABF", "AFTSE", "SREX", "FS", "ATE", "FGX", "ABCFGTUSREDXY"}
-	for rep := 0; rep < g.pick(80, 1500); rep++ {
+	for rep := 0; rep < g.pick(160, 1500); rep++ {
 		n := sizes[g.rng.Intn(len(sizes))]
 		g.begin("sql round trip")
 		f := g.do(g.stdNew(n, colsets[g.rng.Intn(len(colsets))], 12))
@@ -66,8 +66,25 @@ func genC19(g *Gen) {
 		"mixed":  {mk("int", 1, "", ""), mk("float", 0, "2.5", ""), mk("string", 0, "", "x"), null},
 		"nulls":  {null},
 	}
+	// precision x coercion, systematically: a coerced text column next to a native float column and a text column
+	for _, p := range []int{0, 1, 2, 3, 5} {
+		for _, lead := range []int{0, 2} {
+			rows := [][]SqlVal{}
+			for i := 0; i < lead; i++ {
+				rows = append(rows, []SqlVal{null, null, null})
+			}
+			for i, v := range cellsOf["numstr"] {
+				fl := cellsOf["float"][(i*5+p)%len(cellsOf["float"])]
+				rows = append(rows, []SqlVal{v, fl, v})
+			}
+			g.begin("readsql precision")
+			g.do(Step{Op: "ReadSQL", Recv: -1, Cols: bsList([]string{"price", "rate", "txt"}), Rs: rows,
+				Sql: &SqlConf{Precision: p, CoerceNames: []BS{toBS("price")}, CoerceKinds: []int{2}}})
+			g.end()
+		}
+	}
 	kinds := []string{"int", "float", "bool", "string", "numstr", "float", "string", "mixed", "nulls", "int"}
-	for rep := 0; rep < g.pick(120, 2500); rep++ {
+	for rep := 0; rep < g.pick(400, 2500); rep++ {
 		nc := 1 + g.rng.Intn(4)
 		nr := g.rng.Intn(6)
 		names := []BS{}
